@@ -5,15 +5,16 @@
    level-triggered, sound and complete.  Real preemption inside system calls, signal latency
    and wall-clock time are outside the model (design/C17.md).
 
-   Counted (14 theorems): C17_invariant, _wake, _wake_never_sleeps, _wake_progress,
+   Counted (15 theorems): C17_invariant, _wake, _wake_never_sleeps, _wake_progress,
    _resize_progress, _returns_within, _wake_returns_within, _fifo, _quit, _poll_keeps_settings,
-   _restore, _closing_delivered, _closing_delivered_short_writes (all _partial) and
+   _restore, _restore_any_tee (dispose with the copy of the output as an oracle), _closing_delivered, _closing_delivered_short_writes (all _partial) and
    C17_closing_needs_a_reading_peer_refuted (boundary witness of the domain assumption "the peer
    eventually reads").  Not counted: the lemmas C17_wake_request_partial,
    C17_returns_when_idle_partial, C17_wake_returns_now_partial (true by definition of the model),
+   C17_dispose_without_tee,
    the examples and the pin.  Only wake requests have a bound on the return of poll; every other
    event keeps poll's flush-first contract.  Model = the code on /repo main (fixes de62e95,
-   68e120b, 1cf853f + afe2796, adc719b, ab83088, 58259f6 included; e293376 concerns escape sequence
+   68e120b, 1cf853f + afe2796, adc719b, ab83088, 58259f6, cc7dfd1 included; e293376 concerns escape sequence
    resize mode, which is outside the model and run on the pty only).
 
    Vocabulary
@@ -27,7 +28,7 @@
      PI                    the invariant; Wk s = "a wake is in the pipeline" *)
 From Coq Require Import List NArith Arith Bool.
 From SNT Require Import Base.Outcome IO.IOQueue IO.IOQueueProofs IO.TermIO IO.PollLoop
-  IO.PollLoopProofs IO.PollLoopClosing.
+  IO.PollLoopProofs IO.PollLoopClosing IO.PollLoopTee.
 Import ListNotations.
 
 Section Statements.
@@ -159,6 +160,28 @@ Section Statements.
     /\ stream s' = tty (io s) ++ front_slice (tq (io s)) ++ closing.
   Proof. exact dispose_restores. Qed.
 
+  (* ... and the same with the debugging copy of the output (duplicate_output) as a component of
+     dispose (IO/PollLoopTee.v: the real step order, the tee as an oracle with one result per poll
+     of the wait loop): for EVERY behaviour of the tee - none, healthy, failing in any poll - every
+     returning path restores the settings and has queued the closing sequence.  The only step of
+     dispose whose error is returned is the restore itself, and it is the last one; a fallible
+     step put in front of it with an early return (a flush of the tee, say) is outside this model
+     and shows in the correspondence (sessions with a tee on /dev/full or a dead fifo). *)
+  Theorem C17_restore_any_tee_partial :
+    forall (is_da : T -> bool) (closing : list A) fuel (tee : option (list bool)) (s : pstate) sched s',
+    QI s -> (N.of_nat (total_len (chunks (tq (io s))) + length closing) <= usize_max)%N ->
+    dispose_t is_da closing fuel tee s sched = Some s' ->
+    saved s' = saved s
+    /\ sig_closed s' = true
+    /\ (hup s' = false -> cur s' = saved s)
+    /\ stream s' = tty (io s) ++ front_slice (tq (io s)) ++ closing.
+  Proof. exact dispose_t_restores. Qed.
+
+  (* without a tee it is the dispose of the other theorems *)
+  Lemma C17_dispose_without_tee : forall (is_da : T -> bool) (closing : list A) fuel (s : pstate) sched,
+    dispose_t is_da closing fuel None s sched = dispose is_da closing fuel s sched.
+  Proof. exact dispose_t_none. Qed.
+
   (* the closing sequence is delivered whenever, in the first iteration of dispose's first poll,
      the tty is writable and takes the slice it is given (the peer is reading, it has not hung
      up) - whatever else
@@ -257,6 +280,28 @@ Proof.
   split; [repeat constructor; try (eexists; split; [reflexivity|reflexivity])|].
   vm_compute. repeat split; try reflexivity; repeat constructor.
 Qed.
+
+(* a failing copy of the output: three bytes in flight, the kernel takes one byte per iteration, the
+   copy fails in the first poll of the wait.  As found (the error ended the wait: here the tty's own
+   write error in the second iteration stands for it) the settings are restored but the rest of the
+   frame and the closing sequence never arrive; as repaired (cc7dfd1: the tee is forgotten, the wait
+   goes on) everything arrives *)
+Example C17_failing_tee_example :
+  let one : round_env N := mkR false [] false (Some 1%N) false [] [] [] 1024 in
+  let err : round_env N := mkR false [] false None true [] [] [] 1024 in
+  let expired : round_env N := mkR true [] false None false [] [] [] 1024 in
+  let s0 : pstate N N := opened 7 8 in
+  let s1 := upd_io s0 (mkT (write (tq (io s0)) [1;2;3]%N) [] 0) in
+  match dispose (fun t => N.eqb t 9) [27; 99]%N 5 s1 [one; err; one; one; one; one; expired] with
+  | Some s' => cur s' = 7%N /\ tty (io s') = [1]%N /\ queue_empty s' = false
+  | None => False
+  end
+  /\ match dispose_t (fun t => N.eqb t 9) [27; 99]%N 5 (Some [false]) s1
+                     [one; one; one; one; one; one; one; expired; expired] with
+     | Some s' => cur s' = 7%N /\ tty (io s') = [1; 2; 3; 27; 99]%N /\ queue_empty s' = true
+     | None => False
+     end.
+Proof. vm_compute. repeat split; reflexivity. Qed.
 
 (* SIGWINCH flagged together with a termination signal: the Resize event is queued before the
    quit error is returned, and the next poll returns it *)
